@@ -1125,4 +1125,8 @@ def iter_timestamped_records(record: Record) -> Iterator[Record]:
         ts_record = TimestampRecord(getattr(original_record, field.name), field.name)
         # we extend ``ts_record`` with original ``record`` so TSRecord info goes first.
         record = extend_record(ts_record, [record], name=record_name)
+        # the metadata of the original record wins over that of the fresh TimestampRecord
+        record._source = original_record._source
+        record._classification = original_record._classification
+        record._generated = original_record._generated
         yield record
